@@ -705,6 +705,10 @@ func Run(c *core.Ctx) int {
 			objectModelStrings(c, rc.Texts)
 			return c.Finish("replay", nil)
 		}
+		if rc.Stream == "size" || rc.Stream == "delivery" {
+			sizeReplay(c, &rc)
+			return c.Finish("replay", nil)
+		}
 		if rc.Enc != "" {
 			v, _, err := Dec(strings.Fields(rc.Enc))
 			if err != nil {
@@ -1023,7 +1027,11 @@ func Run(c *core.Ctx) int {
 	}
 	objectModelStrings(c, oms)
 
-	return c.Finish("contents generated type-directed (depth ≤ 6, null patterns, key classes, int64 boundaries, float64 of every kind, every scalar value as a one-character string), each rendered in 2–6 styles (member order, whitespace, escape style, number spelling); a text with a number beyond float64, with bytes that are not valid UTF-8 or with the escape of an unpaired UTF-16 surrogate must be rejected (U+FFFD itself is a character like any other); oracle on the Go output: all renderings agree, output parses with an independent strict canonical-form parser to the content minus null members, is valid UTF-8 JSON, canonicalises to itself, equals the README text computed by the Lean specification; then compared with the Lean model of the code (canon, and CanonicalJSON on the text's bytes — checkEncoding, also compared with the harness's own scanner — plus json.Decoder's tokens); c14n.String(s).MarshalJSON() directly on valid and invalid Go strings; malformed inputs must be rejected, among them one complete value preceded / followed (start, end, both; alone and mixed with JSON whitespace) or interrupted between two tokens by each Unicode white-space character that is not one of JSON's four (taken from the Unicode tables: White_Space, Z*, unicode.IsSpace) and by NUL, BOM, zero-width and other invisible characters; non-trivial = canonicalisation changed the text of some rendering; distinct by content",
+	// (S) size and delivery independence (long.go): whitespace, strings and arrays of every length
+	// around the powers of two up to 32 MiB; the same text through readers that deliver it in pieces
+	sizeFamily(c, g, r)
+
+	return c.Finish("contents generated type-directed (depth ≤ 6, null patterns, key classes, int64 boundaries, float64 of every kind, every scalar value as a one-character string), each rendered in 2–6 styles (member order, whitespace, escape style, number spelling); a text with a number beyond float64, with bytes that are not valid UTF-8 or with the escape of an unpaired UTF-16 surrogate must be rejected (U+FFFD itself is a character like any other); oracle on the Go output: all renderings agree, output parses with an independent strict canonical-form parser to the content minus null members, is valid UTF-8 JSON, canonicalises to itself, equals the README text computed by the Lean specification; then compared with the Lean model of the code (canon, and CanonicalJSON on the text's bytes — checkEncoding, also compared with the harness's own scanner — plus json.Decoder's tokens); c14n.String(s).MarshalJSON() directly on valid and invalid Go strings; malformed inputs must be rejected, among them one complete value preceded / followed (start, end, both; alone and mixed with JSON whitespace) or interrupted between two tokens by each Unicode white-space character that is not one of JSON's four (taken from the Unicode tables: White_Space, Z*, unicode.IsSpace) and by NUL, BOM, zero-width and other invisible characters; size independence: a value with 2^k-1, 2^k, 2^k+1 bytes (k = 9..25) of JSON whitespace before it, after it or inside it, strings and arrays of those lengths, and texts whose offending character comes that far after a complete value, are judged like the same text with one space; delivery independence: the same text read in one piece, byte by byte, in halves, with data+EOF and in fixed and random pieces gives the same result; non-trivial = canonicalisation changed the text of some rendering; distinct by content",
 		map[string]any{"float_digits": "the harness sends the digits/exponent strconv.FormatFloat(f,'E',-1,64) produces for the float64 of each non-integer number (strconv trusted); the strict parser re-reads the output digits with strconv.ParseFloat and checks they are the shortest digits of that float64"})
 }
 
